@@ -87,6 +87,9 @@ impl View {
         let mut cur_batch: BTreeMap<TaskId, usize> = BTreeMap::new();
         // unmatched receive indices per (task)
         let mut pending: BTreeMap<TaskId, Vec<usize>> = BTreeMap::new();
+        // sends that name no pending request (greased, or built for something ill-formed), per task,
+        // waiting for the end of their batch
+        let mut deferred: BTreeMap<TaskId, Vec<usize>> = BTreeMap::new();
 
         for rec in &w.history {
             let task = match rec.task {
@@ -99,6 +102,7 @@ impl View {
             }
             match &rec.ev {
                 Ev::UdpRecv { sock, src, dgram, data, truncated_to } => {
+                    resolve_deferred(task, &mut deferred, &mut pending, &mut recvs, &mut sends, long_pk);
                     // judged on the datagram as it arrived, not on what fitted the receiver's buffer
                     let _ = truncated_to;
                     let class = r::classify_request(data, srv);
@@ -108,6 +112,7 @@ impl View {
                     cur_batch.remove(&task);
                 }
                 Ev::ClockRead { wall_ns } => {
+                    resolve_deferred(task, &mut deferred, &mut pending, &mut recvs, &mut sends, long_pk);
                     clocks.entry(task).or_default().push((rec.seq, *wall_ns));
                     batches.push(Batch { task, clock_seq: rec.seq, clock_wall: *wall_ns, sends: vec![] });
                     cur_batch.insert(task, batches.len() - 1);
@@ -152,34 +157,10 @@ impl View {
                             }
                         }
                     }
-                    // 2b. an ill-formed datagram carrying the echoed nonce (best-effort decode): the
-                    // response was evidently built from it
-                    if chosen.is_none() {
-                        if let Some(e) = &echo {
-                            for &i in &cands {
-                                if recvs[i].class.is_err() && response_nonce(None, &recvs[i].data).as_ref() == Some(e) {
-                                    chosen = Some((i, "nonce-illformed", None));
-                                    break;
-                                }
-                            }
-                        }
-                    }
-                    // 3. oldest unanswered datagram from that address
-                    if chosen.is_none() {
-                        // prefer a datagram of the response's own protocol (responses leave in
-                        // request order per protocol), else any datagram from that address
-                        // (a request the protocol obliges the server to answer is a likelier origin than
-                        // one it may ignore, e.g. a non-standard nonce length that stays unanswered)
-                        let must_answer = cands.iter().copied().find(|&i| matches!(&recvs[i].class, Ok(info) if info.proto == proto && info.must == r::Must::Answer));
-                        let same_proto = cands.iter().copied().find(|&i| matches!(&recvs[i].class, Ok(info) if info.proto == proto));
-                        if let Some(i) = must_answer.or(same_proto).or(cands.first().copied()) {
-                            let v = match &recvs[i].class {
-                                Ok(info) => Some(r::verify_response(data, &r::VerifyOpts { proto: info.proto, request: &recvs[i].data, nonce: &info.nonce, long_term_pk: if long_pk.is_empty() { None } else { Some(long_pk) }, require_nonce_echo: true, lenient: false })),
-                                Err(_) => None,
-                            };
-                            chosen = Some((i, "addr", v));
-                        }
-                    }
+                    // 2b / 3 (ill-formed datagram with the echoed nonce; oldest unanswered datagram from
+                    // that address) are decided when the batch is over, after every response of the
+                    // batch that names its request has claimed it: see `resolve_deferred`
+                    let defer = chosen.is_none();
                     let (request, how, verdict) = match chosen {
                         Some((i, h, v)) => (Some(i), h, v),
                         None => (None, "none", None),
@@ -191,10 +172,17 @@ impl View {
                         }
                     }
                     batches[b].sends.push(sends.len());
+                    if defer {
+                        deferred.entry(task).or_default().push(sends.len());
+                    }
                     sends.push(SendRec { seq: rec.seq, t: rec.t, task, proc, sock: *sock, dst: *dst, dgram: *dgram, data: data.clone(), ok: *ok, err, request, how, batch: b, verdict });
                 }
                 _ => {}
             }
+        }
+        let tasks: Vec<TaskId> = deferred.keys().copied().collect();
+        for t in tasks {
+            resolve_deferred(t, &mut deferred, &mut pending, &mut recvs, &mut sends, long_pk);
         }
         View { recvs, sends, batches, clocks, sut_procs }
     }
@@ -202,6 +190,65 @@ impl View {
     /// all receives matched at least once (answered), etc.
     pub fn answered(&self) -> usize {
         self.recvs.iter().filter(|r| !r.answers.is_empty()).count()
+    }
+}
+
+/// Attribute the responses of a finished batch that name no pending request: to an ill-formed
+/// datagram carrying the echoed nonce, else to the oldest unanswered datagram from the address
+/// they were sent to. Responses that do name their request claimed it when they were sent, so a
+/// response that cannot be told apart (a greased one) never displaces one that can, whatever the
+/// order in which a batch is answered.
+fn resolve_deferred(task: TaskId, deferred: &mut BTreeMap<TaskId, Vec<usize>>, pending: &mut BTreeMap<TaskId, Vec<usize>>, recvs: &mut Vec<RecvRec>, sends: &mut Vec<SendRec>, long_pk: &[u8]) {
+    let list = match deferred.remove(&task) {
+        Some(l) => l,
+        None => return,
+    };
+    for si in list {
+        let dst = sends[si].dst;
+        let data = sends[si].data.clone();
+        let proto = response_proto(&data);
+        let echo = response_nonce(Some(proto), &data);
+        let cands: Vec<usize> = pending.get(&task).map(|v| v.iter().copied().filter(|&i| recvs[i].src == dst).collect()).unwrap_or_default();
+        let mut chosen: Option<(usize, &'static str, Option<Result<r::Verified, r::Reject>>)> = None;
+        let data = &data;
+        // 2b. an ill-formed datagram carrying the echoed nonce (best-effort decode): the
+        // response was evidently built from it
+        if chosen.is_none() {
+            if let Some(e) = &echo {
+                for &i in &cands {
+                    if recvs[i].class.is_err() && response_nonce(None, &recvs[i].data).as_ref() == Some(e) {
+                        chosen = Some((i, "nonce-illformed", None));
+                        break;
+                    }
+                }
+            }
+        }
+        // 3. oldest unanswered datagram from that address
+        if chosen.is_none() {
+            // prefer a datagram of the response's own protocol (responses leave in
+            // request order per protocol), else any datagram from that address
+            // (a request the protocol obliges the server to answer is a likelier origin than
+            // one it may ignore, e.g. a non-standard nonce length that stays unanswered)
+            let must_answer = cands.iter().copied().find(|&i| matches!(&recvs[i].class, Ok(info) if info.proto == proto && info.must == r::Must::Answer));
+            let same_proto = cands.iter().copied().find(|&i| matches!(&recvs[i].class, Ok(info) if info.proto == proto));
+            if let Some(i) = must_answer.or(same_proto).or(cands.first().copied()) {
+                let v = match &recvs[i].class {
+                    Ok(info) => Some(r::verify_response(data, &r::VerifyOpts { proto: info.proto, request: &recvs[i].data, nonce: &info.nonce, long_term_pk: if long_pk.is_empty() { None } else { Some(long_pk) }, require_nonce_echo: true, lenient: false })),
+                    Err(_) => None,
+                };
+                chosen = Some((i, "addr", v));
+            }
+        }
+
+        if let Some((i, how, verdict)) = chosen {
+            sends[si].request = Some(i);
+            sends[si].how = how;
+            sends[si].verdict = verdict;
+            recvs[i].answers.push(si);
+            if let Some(p) = pending.get_mut(&task) {
+                p.retain(|&x| x != i);
+            }
+        }
     }
 }
 
